@@ -238,7 +238,7 @@ class UnitScopeMachine(Machine):
         return out
 
     def _fresh(self, rng, n):
-        used = set(self.open_symbols())
+        used = {x.strip() for x in self.open_symbols()}
         # look-alikes of prefixed forms of earlier custom units ('kqux' after a scope that had
         # 'qux' with prefix k has ended): legal whenever no open symbol is a suffix of them
         alike = [p + c for c in self.pool[:8] for p in ("k", "M", "m")]
@@ -268,6 +268,9 @@ class UnitScopeMachine(Machine):
                 u["defn"] = "2*m"
             if rng.random() < 0.2:
                 u["name"] = "custom " + sym
+            if not u["prefixes"] and rng.random() < 0.06:
+                # a symbol written with a blank in front: legal, the parser skips the blank
+                u["sym"] = " " + sym
         return u
 
     def _bad_entry(self, rng, kind, reserved=None):
@@ -330,6 +333,10 @@ class UnitScopeMachine(Machine):
             w["use"] = 0
         kinds = sorted(w)
         kind = rng.choices(kinds, [w[k] for k in kinds])[0]
+        if self.stack and rng.random() < 0.04:
+            # the caller goes on using the mapping it opened the scope with: empties it, takes
+            # an entry out, adds one - the open scope is not a view of that mapping
+            return {"op": "mutate_mapping", "how": rng.choice(["clear", "pop", "add"])}
         if rng.random() < 0.04:
             # the collector runs now (the simulator owns it): finalisers of scopes that were
             # closed, refused or abandoned earlier fire while other scopes are open
@@ -604,6 +611,25 @@ class UnitScopeMachine(Machine):
             out = self._apply_use(op)
         elif kind == "dip":
             out = self._apply_dip(op)
+        elif kind == "mutate_mapping":
+            if not self.stack:
+                return "skip", None
+            sc = self.stack[-1]
+            m = sc.get("mapping")
+            if not isinstance(m, dict):
+                return "skip", None
+            self.unit_objects.pop(sc.get("key"), None)      # never handed to a later scope
+            if op["how"] == "clear":
+                m.clear()
+            elif op["how"] == "pop" and m:
+                m.pop(next(iter(m)))
+            else:
+                m["zzzq"] = {"magnitude": 3.0, "dimensions": [0, 0, 1, 0, 0, 0, 0, 0]}
+            self.stats.fault("caller_changes_its_units_mapping_while_the_scope_is_open", True)
+            self._check_open_state("after_mapping_change")
+            for u in sc["units"]:
+                self._usable(u)
+            out = ("mapping_changed", op["how"])
         elif kind == "gc":
             import gc
             gc.collect()
@@ -623,6 +649,11 @@ class UnitScopeMachine(Machine):
         for u in spec:            # a dict keeps the first position and the last value
             dedup[u["sym"]] = u
         spec = list(dedup.values())
+        # ' qux' and 'qux' are different table keys but the same text to the parser: such a
+        # pair (only shrinking or re-opening can produce it) is not a history worth a verdict
+        names = [u["sym"] for u in spec] + list(self.open_symbols())
+        if any(a != b and a.strip() == b.strip() for a in names for b in names):
+            return "skip", None
         pre = tables.snapshot()
         # users define a units dict once and hand the same object to several `with` blocks:
         # reuse the object built for an identical description earlier in this run
@@ -691,7 +722,7 @@ class UnitScopeMachine(Machine):
                             signature="C09/replaced_existing/" + (op["bad"]["kind"] if op.get("bad")
                                                                   else "unplanned"))
         env.__enter__()
-        self.stack.append({"env": env, "units": spec, "pre": pre})
+        self.stack.append({"env": env, "units": spec, "pre": pre, "mapping": units, "key": key})
         for u in spec:
             self.known_syms[u["sym"]] = u
         self._check_open_state("after_open")
